@@ -35,6 +35,26 @@ CHECKS = {
          'Every parseable input of the C11 sequence/edit spaces and every reference diff under 8 header dialects is written and re-parsed; file-patch fields, hunk sides and start lines must agree and the second write must be byte-identical.',
          'Context/changed classification of lines is deliberately not compared (the writer re-derives it). KF-02 (vanishing no-op hunk-less entries) is recorded, not repaired.',
          '5/C12'),
+ 'C15': ('wsweep', 'model_checking',
+         'bounded-exhaustive enumeration of workspaces hard-linked into a twin tree x loaders x threads on the real binary under the LD_PRELOAD monitor',
+         'Every workspace of the C05 alphabet is pushed with all its files hard-linked into a twin tree, with the default and the mmap loader and 1/2 threads: the twin must stay byte-, mode- and inode-identical, every changed file must have a fresh inode, and files no patch names must keep their inode and link count with no mutating call logged on them.',
+         'The monitor sees libc calls only; tool-owned outputs (.pc, *.rej) are outside the statement.',
+         '5/C15'),
+ 'C16': ('wsweep', 'model_checking',
+         'bounded-exhaustive enumeration of series-line spellings x strip levels x header forms, and of the old/new-name existence matrix x kinds x push splits x threads, on the real binary; toy-quilt oracle',
+         'All getopts spellings of -p0..2 with/without -R in both orders between comment/blank/whitespace lines, path depths 1-3, header forms where only one name decides at -p0..3; and the 5x5 existence matrix of old and new name x {modify, create, delete} x {one push, split} x threads {1,2}: the tree shows which name was patched and with which strip level and direction.',
+         'Both candidate files hold identical lines so the hunk fits either name; the oracle is the toy-quilt rule (old name if it currently exists, else new).',
+         '5/C16'),
+ 'C17': ('wsweep', 'model_checking',
+         'bounded-exhaustive enumeration of (series, applied-patches) pairs x goals x threads x verbosity, and of bad patch files at every range position, on the real binary',
+         'All pairs of duplicate-free series over 3 names and applied-patches sequences of up to 3 names (incl. longer, reordered, edited, duplicated), all goal arguments, threads 1/2, both verbosities, plus missing/unparseable/unreadable patch files at every position of the range after 0-2 applied patches: whenever the precondition of the statement holds the run must exit 1 with a message and leave the full snapshot (inodes, mtimes) identical.',
+         'Unreadable is simulated by a directory in place of the patch file (the sandbox runs as root).',
+         '5/C17'),
+ 'C19': ('wsweep', 'model_checking',
+         'bounded-exhaustive enumeration of escaping name spellings x header positions x kinds x strip levels x threads on the real binary inside a sentinel directory under the LD_PRELOAD monitor',
+         '10 spellings (absolute, several shapes of "..", plain and quoted) x header position x file-patch kind (incl. failing hunks => rejects) x -p0..3 x threads: the sentinel tree outside the workspace must be identical (inodes, mtimes), the monitor must log no call outside the workspace, and a name that still escapes after stripping must be refused with exit 1.',
+         'The monitor sees libc calls only; decoy files sit at every escape target.',
+         '5/C19'),
  'C20': ('rqmc', 'model_checking',
          'metamorphic bounded-exhaustive enumeration: same (file, patch) at all fuzz-limit pairs F<F\' on the real apply',
          'Every (file, patch) of the C02 and C03 spaces is run at limits 0..3; whenever it applies completely at F it must apply identically (content and per-hunk placement) at every F\'>F.',
